@@ -138,6 +138,15 @@ type c10B struct {
 	kinds  []string
 	failed bool
 
+	// single-fault injection: while armed, a key operation may return an error
+	faultArmed bool
+	opErr      error
+	newRootTry []byte
+	// half: a key operation failed half-way; until the next complete keyring persist the
+	// root-key record and the keyring may disagree, so a reload may be refused (the node
+	// then shuts down and is unsealed again) - it must still never end with wrong keys
+	half bool
+
 	// what the history exercised (for the non-triviality rule)
 	keyOps       int
 	readAfterKey int
@@ -152,6 +161,15 @@ func (e *c10B) viol(kind, format string, a ...any) {
 	e.failed = true
 	e.r.Violate("C10-"+kind, e.caseID, fmt.Sprintf("[%s] ", e.caseID)+fmt.Sprintf(format, a...),
 		map[string]any{"steps": e.steps, "transactional": e.tx, "namespaced": e.ns != nil, "model_term": e.term})
+}
+
+// tolerate reports whether err is the legitimate outcome of an injected storage fault.
+func (e *c10B) tolerate(err error) bool {
+	if e.faultArmed && err != nil {
+		e.opErr = err
+		return true
+	}
+	return false
 }
 
 var c10Ctx = context.Background()
@@ -623,6 +641,9 @@ func (e *c10B) opEncrypt() {
 func (e *c10B) opRotate(ha bool) {
 	nt, err := e.p.Rotate(c10Ctx)
 	e.step("rotate", "rotate ha=%v -> term %d err=%v", ha, nt, err)
+	if e.tolerate(err) {
+		return
+	}
 	if err != nil {
 		e.viol("rotate-failed", "Rotate on an unsealed barrier: %v", err)
 		return
@@ -633,10 +654,14 @@ func (e *c10B) opRotate(ha bool) {
 	}
 	e.term = nt
 	e.keyOps++
+	e.half = false
 	e.ref = c10Snap(c10Raw(e.p).keyring)
 	e.r.Count("rotations", 1)
 	if ha {
 		if err := e.p.CreateUpgrade(c10Ctx, nt); err != nil {
+			if e.tolerate(err) {
+				return
+			}
 			e.viol("create-upgrade-failed", "CreateUpgrade(%d): %v", nt, err)
 			return
 		}
@@ -659,14 +684,19 @@ func (e *c10B) opRotateRoot() {
 		n = 16
 	}
 	nk := e.rng.Bytes(n)
+	e.newRootTry = nk
 	err := e.p.RotateRootKey(c10Ctx, append([]byte(nil), nk...))
 	e.step("rotate-root", "rotate-root len=%d err=%v", n, err)
+	if e.tolerate(err) {
+		return
+	}
 	if err != nil {
 		e.viol("rotate-root-failed", "RotateRootKey on an unsealed barrier: %v", err)
 		return
 	}
 	e.oldRoots = append(e.oldRoots, e.root)
 	e.root = nk
+	e.half = false
 	e.keyOps++
 	e.ref = c10Snap(c10Raw(e.p).keyring)
 	e.r.Count("root_rotations", 1)
@@ -686,6 +716,14 @@ func (e *c10B) opReload() {
 		err = e.p.ReloadKeyring(c10Ctx)
 	}
 	e.step("reload", "reload err=%v", err)
+	if e.tolerate(err) {
+		return
+	}
+	if err != nil && e.half {
+		e.r.Count("observation_reload_refused_after_half_persisted_key_operation", 1)
+		e.bounce("reload refused on a half-persisted store")
+		return
+	}
 	if err != nil {
 		e.viol("reload-failed", "ReloadRootKey/ReloadKeyring on the active node: %v", err)
 		return
@@ -710,12 +748,18 @@ func (e *c10B) opPersistOnly() {
 		_, err = e.p.CheckBarrierAutoRotate(c10Ctx)
 	}
 	e.step("persist", "%s err=%v", what, err)
+	if e.tolerate(err) {
+		return
+	}
 	if err != nil {
 		e.viol("persist-keyring-failed", "%s: %v", what, err)
 		return
 	}
 	if d := c10Snap(c10Raw(e.p).keyring).diff(e.ref); len(e.ref.Keys) > 0 && d != "" {
 		e.viol("persist-changed-keys", "%s changed key material: %s", what, d)
+	}
+	if what == "set-rotation-config" {
+		e.half = false
 	}
 	e.r.Count("persist_only_ops", 1)
 }
@@ -835,6 +879,12 @@ func (e *c10B) opStandbyX(followOnly bool) {
 		err = e.s.ReloadKeyring(c10Ctx)
 	}
 	e.step("standby-follow", "standby follow behind=%d root-stale=%v path-intact=%v upgraded=%d err=%v", behind, rootStale, intact, upgraded, err)
+	if err != nil && e.half {
+		e.r.Count("observation_reload_refused_after_half_persisted_key_operation", 1)
+		e.sealCheck(e.s, "standby")
+		e.sSealed = true
+		return
+	}
 	if err != nil {
 		if intact {
 			e.viol("standby-follow-failed", "standby %d term(s) behind (root key stale=%v) with every upgrade entry present cannot follow: %v", behind, rootStale, err)
@@ -940,10 +990,166 @@ func (e *c10B) run(n int) {
 		case x < 84:
 			e.step("read", "read all")
 			e.readAll(e.p, "active")
+		case x < 90:
+			e.opFaulted(kit.Pick(e.rng, c10FaultKinds), 1+e.rng.Intn(4))
 		default:
 			e.opStandby()
 		}
 	}
+}
+
+// bounce seals and unseals the active node (what a node does after it shut itself down).
+func (e *c10B) bounce(why string) {
+	e.sealCheck(e.p, "active")
+	e.sealed = true
+	e.step("unseal", "bounce the active node: %s", why)
+	if !e.unsealCheck(e.p, "active ("+why+")") {
+		return
+	}
+	e.sealed = false
+	e.ref = c10Snap(c10Raw(e.p).keyring)
+	e.readAll(e.p, "active ("+why+")")
+}
+
+// ---------------------------------------------------------------- single storage fault inside a key operation
+
+var c10FaultKinds = []string{"rotate", "rotate+create-upgrade", "rotate-root-key", "reload", "set-rotation-config", "auto-rotate-check"}
+
+// opFaulted runs one key operation while the k-th storage operation it issues
+// fails once. The operation may then report an error; the process survives and
+// keeps taking writes. Whatever it writes afterwards must be readable on a
+// fresh node and after seal+unseal, under a term the persisted keyring holds.
+func (e *c10B) opFaulted(kind string, k int) {
+	if e.sealed || e.failed {
+		return
+	}
+	oldRoot := append([]byte(nil), e.root...)
+	oldTerm := e.term
+	e.faultArmed, e.opErr, e.newRootTry = true, nil, nil
+	e.probe.FailNth(func(kit.Event) bool { return true }, k)
+	e.step("fault", "next key operation (%s) runs with its storage operation #%d failing once", kind, k)
+	switch kind {
+	case "rotate":
+		e.opRotate(false)
+	case "rotate+create-upgrade":
+		e.opRotate(true)
+	case "rotate-root-key":
+		e.opRotateRoot()
+	case "reload":
+		e.opReload()
+	case "set-rotation-config", "auto-rotate-check":
+		e.opPersistOnly()
+	}
+	fired := e.probe.ClearFaults()
+	e.faultArmed = false
+	err := e.opErr
+	e.opErr = nil
+	if e.failed {
+		return
+	}
+	if fired == 0 {
+		e.r.Count("faults_not_reached", 1)
+		if err != nil && e.half && kind == "reload" {
+			e.r.Count("observation_reload_refused_after_half_persisted_key_operation", 1)
+			e.bounce("reload refused on a half-persisted store")
+		} else if err != nil {
+			e.viol("key-op-failed", "%s failed although the injected fault was never reached: %v", kind, err)
+		}
+		return
+	}
+	e.r.Count("faults_fired", 1)
+	e.r.Count("faults_fired:"+kind, 1)
+	if err == nil {
+		e.r.Count("faults_fired_operation_reported_success", 1)
+		return // the ordinary oracles judge what follows
+	}
+	e.r.Count("key_operations_failed_by_fault", 1)
+	e.r.Count("key_operations_failed_by_fault:"+kind, 1)
+	e.keyOps++
+	e.half = true
+	// other nodes are bounced by the operator after such an incident
+	if e.s != nil && !e.sSealed {
+		e.sealCheck(e.s, "standby")
+		e.sSealed = true
+	}
+	// the process survived: it keeps serving writes
+	type pw struct {
+		key  string
+		term uint32
+	}
+	var later []pw
+	for i := 0; i < 2+e.rng.Intn(2) && !e.failed; i++ {
+		key := e.key(e.rng.Intn(9))
+		val := e.rng.Bytes(1 + e.rng.Intn(30))
+		var perr error
+		if ts, ok := e.p.(logical.TransactionalStorage); ok && e.rng.Chance(1, 3) {
+			var txn logical.Transaction
+			if txn, perr = ts.BeginTx(c10Ctx); perr == nil {
+				if perr = txn.Put(c10Ctx, &logical.StorageEntry{Key: key, Value: val}); perr == nil {
+					perr = txn.Commit(c10Ctx)
+				} else {
+					_ = txn.Rollback(c10Ctx)
+				}
+			}
+		} else {
+			perr = e.p.Put(c10Ctx, &logical.StorageEntry{Key: key, Value: val})
+		}
+		e.step("put", "put %s after the failed %s", strings.TrimPrefix(key, e.meta), kind)
+		if perr != nil {
+			e.viol("put-failed", "Put(%s) after a failed %s: %v", key, kind, perr)
+			return
+		}
+		t, _, ok := e.header(key)
+		if !ok {
+			e.viol("put-failed", "Put(%s) after a failed %s left no record", key, kind)
+			return
+		}
+		e.data[key], e.dterm[key] = val, t
+		delete(e.gone, key)
+		later = append(later, pw{key, t})
+	}
+	// what is durable now: a fresh node must open with the old root key or the one the operation tried to install
+	f := NewAESGCMBarrier(e.phys, e.ns)
+	opened := ""
+	if e.newRootTry != nil && f.Unseal(c10Ctx, append([]byte(nil), e.newRootTry...)) == nil {
+		opened = "new"
+		e.oldRoots = append(e.oldRoots, oldRoot)
+		e.root = e.newRootTry
+	} else if f.Unseal(c10Ctx, append([]byte(nil), oldRoot...)) == nil {
+		opened = "old"
+	}
+	if opened == "" {
+		e.viol("store-unsealable-after-failed-key-operation", "%s failed on its storage operation #%d (%v); a fresh node opens with neither the previous root key nor the one being installed", kind, k, err)
+		return
+	}
+	pkr := c10Snap(c10Raw(f).keyring)
+	if pkr.Active != oldTerm && pkr.Active != oldTerm+1 {
+		e.viol("active-term", "after a failed %s the persisted active term is %d (was %d)", kind, pkr.Active, oldTerm)
+		return
+	}
+	for _, w := range later {
+		if _, ok := pkr.Keys[w.term]; !ok {
+			e.viol("write-after-failed-key-operation-under-unpersisted-term", "%s failed on its storage operation #%d (%v) and the barrier kept serving: a later Put(%s) was encrypted under term %d, the keyring in storage holds terms up to %d only, so the entry is lost at the next seal, restart or fail-over", kind, k, err, w.key, w.term, pkr.Active)
+			return
+		}
+		e.r.Count("writes_after_failed_key_operation_checked", 1)
+	}
+	e.term = pkr.Active
+	e.ref = pkr
+	if !e.readAll(f, "fresh node after a failed "+kind) {
+		return
+	}
+	e.sealCheck(f, "fresh-node")
+	// seal + unseal of the surviving node
+	e.sealCheck(e.p, "active")
+	e.sealed = true
+	e.step("unseal", "seal+unseal the node that survived the failed %s (store opens with the %s root key, active term %d)", kind, opened, e.term)
+	if !e.unsealCheck(e.p, "active after failed "+kind) {
+		return
+	}
+	e.sealed = false
+	e.ref = c10Snap(c10Raw(e.p).keyring)
+	e.readAll(e.p, "active after failed "+kind+" and seal/unseal")
 }
 
 func (e *c10B) finish() {
@@ -1025,6 +1231,65 @@ func TestVerif_C10_BarrierHistories(t *testing.T) {
 	r.Require("standby_follows_ok_behind_and_root_stale", 30/div)
 	r.Require("persisted_restart_checks", 700/div)
 	r.Require("ciphertexts_reopened", 1000/div)
+}
+
+func TestVerif_C10_BarrierFaults(t *testing.T) {
+	seed := kit.Seed(10)
+	shard, nshards := kit.Shard()
+	r := kit.NewResult(t, "c10-barrier-faults", seed, "single storage fault inside a key operation, enumerated: for each key operation (rotate, rotate+create-upgrade, rotate-root-key, reload, the two keyring-only persists) x each storage operation k=1..5 it issues x store kind x meta prefix x seeded pre-history: operation k fails once, the operation may report an error, the barrier keeps serving puts; every later put must carry a term the keyring in storage holds and read back on a fresh node and after seal+unseal of the surviving node; the history then continues with random operations under the ordinary oracles. A case is non-trivial when the fault fired")
+	r.Exhaustive = true
+	defer r.Write(t)
+	rounds := kit.N(4, 40)
+	idx := 0
+	for round := 0; round < rounds; round++ {
+		for _, kind := range c10FaultKinds {
+			for k := 1; k <= 5; k++ {
+				idx++
+				if (round/4)%nshards != shard {
+					continue
+				}
+				caseID := fmt.Sprintf("bf:%d:%s:%d", round, kind, k)
+				if !kit.WantCase(caseID) {
+					continue
+				}
+				rng := kit.NewRand(seed, 5_000_000+uint64(idx))
+				e := c10NewB(r, caseID, rng, round%2 == 0, round%4 >= 2, rng.Chance(1, 3))
+				if e.failed {
+					continue
+				}
+				e.run(3 + rng.Intn(6))
+				if !e.failed && e.sealed {
+					e.opUnseal()
+				}
+				for i := 0; i < 2 && !e.failed; i++ {
+					e.opPut()
+				}
+				before := r.Get("faults_fired")
+				if !e.failed {
+					e.opFaulted(kind, k)
+				}
+				r.Eval(1)
+				if r.Get("faults_fired") > before {
+					r.Nontrivial(caseID)
+				}
+				if !e.failed {
+					e.run(6)
+					e.finish()
+				}
+				if round == 0 && k == 1 && kind == "rotate" {
+					r.Sample(map[string]any{"case": caseID, "steps": e.steps})
+				}
+				if r.NViolations() > 30 {
+					return
+				}
+			}
+		}
+	}
+	r.Require("faults_fired", int64(60/nshards))
+	r.Require("key_operations_failed_by_fault", int64(45/nshards))
+	r.Require("key_operations_failed_by_fault:rotate", int64(6/nshards))
+	r.Require("key_operations_failed_by_fault:rotate-root-key", int64(6/nshards))
+	r.Require("writes_after_failed_key_operation_checked", int64(90/nshards))
 }
 
 // c10Op is one key operation whose physical writes are cut at every prefix.
